@@ -4,8 +4,10 @@ import (
 	"flag"
 	"fmt"
 	"os"
+	"path/filepath"
 	"runtime/debug"
 	"sort"
+	"strings"
 	"time"
 )
 
@@ -27,7 +29,27 @@ func main() {
 	out := flag.String("out", "", "directory receiving evidence/ (default: the verif directory)")
 	overlay := flag.String("overlay", "", "unified diff applied to the source as an overlay (sensitivity suite)")
 	list := flag.Bool("list", false, "list properties with a check")
+	skip := flag.String("skip", "", "with -prop all: comma-separated property ids to leave out")
+	overlayDir := flag.String("overlaydir", "", "directory mirroring repo-relative paths whose files replace the repository's (rename sweep)")
+	genAnch := flag.String("gen-anchors", "", "write the reference table of declarations (alpha-normalisation) to this file and exit")
+	genRen := flag.String("gen-renames", "", "rename sweep: write one overlay directory per declaration under this root and exit")
+	renParams := flag.Bool("rename-params", false, "with -gen-renames: also parameters and named results")
+	noNorm := flag.Bool("no-normalise", false, "do not undo renames before the analysis (debugging)")
 	flag.Parse()
+	if *genAnch != "" {
+		if err := genAnchors(*repo, *genAnch); err != nil {
+			fmt.Println(err)
+			os.Exit(2)
+		}
+		return
+	}
+	if *genRen != "" {
+		if err := genRenames(*repo, *genRen, *renParams, "Rn"); err != nil {
+			fmt.Println(err)
+			os.Exit(2)
+		}
+		return
+	}
 	if *list {
 		var ids []string
 		for id := range registry {
@@ -40,7 +62,7 @@ func main() {
 		return
 	}
 	f, ok := registry[*prop]
-	if !ok {
+	if !ok && *prop != "all" {
 		fmt.Fprintf(os.Stderr, "no check for property %q\n", *prop)
 		os.Exit(2)
 	}
@@ -55,12 +77,54 @@ func main() {
 		}
 		opts.Overlay = ov
 	}
+	if *overlayDir != "" {
+		ov, err := overlayFromDir(*repo, *overlayDir)
+		if err != nil {
+			fmt.Println(err)
+			os.Exit(3)
+		}
+		opts.Overlay = ov
+	}
+	if !*noNorm {
+		opts.AnchorsFile = filepath.Join(*verif, "anchors.json")
+	}
 	c, err := Load(*repo, opts)
 	if err != nil {
 		// the tree does not load / type-check: no verdict can be given; this is a failure of the check run
 		fmt.Printf("cannot analyse %s: %v\n", *repo, err)
 		fmt.Printf("VIOLATION property=%s replay=%s\n", *prop, "/verif/evidence/replay/"+*prop+"-load-failure.json")
 		os.Exit(1)
+	}
+	if *out == "" {
+		*out = *verif
+	}
+	if *prop == "all" {
+		// one load, every property in turn (used by the sweeps; the registered commands run one property per process)
+		var ids []string
+		for id := range registry {
+			ids = append(ids, id)
+		}
+		sort.Strings(ids)
+		worst := 0
+		for _, id := range ids {
+			if *skip != "" && strings.Contains(","+*skip+",", ","+id+",") {
+				continue
+			}
+			t0 := time.Now()
+			rr := NewReport(id)
+			func() {
+				defer func() {
+					if e := recover(); e != nil {
+						rr.Unk("internal", "-", "analyser-panic", "-", fmt.Sprintf("analyser panicked: %v\n%s", e, debug.Stack()))
+					}
+				}()
+				registry[id](c, rr, *tier)
+			}()
+			if code := rr.Finish(c, *tier, *seed, time.Since(t0).Seconds(), *verif, *out, map[string]interface{}{}); code > worst {
+				worst = code
+			}
+		}
+		os.Exit(worst)
 	}
 	r := NewReport(*prop)
 	func() {
@@ -74,9 +138,6 @@ func main() {
 	extra := map[string]interface{}{}
 	if *tier == "thorough" && *overlay == "" {
 		runThoroughExtras(c, r, *prop, *repo, extra)
-	}
-	if *out == "" {
-		*out = *verif
 	}
 	code := r.Finish(c, *tier, *seed, time.Since(start).Seconds(), *verif, *out, extra)
 	os.Exit(code)
